@@ -55,6 +55,23 @@ PREDS = {
 }
 
 
+def _a_eq_1_reentrant(x):
+    # a predicate that itself runs list-of-dicts operations (on an unrelated list) before answering
+    import dataiter as di
+    other = di.ListOfDicts([{"a": 2, "b": "q"}, {"a": 1, "b": "p"}, {"a": 1, "b": "r"}])
+    other.filter(a=1).sort(b=-1).unique("a").select("a").modify(c=lambda y: 0).head(1)
+    return x.get("a") == 1
+
+
+PREDS["a_eq_1_reentrant"] = _a_eq_1_reentrant
+
+
+def _nkeys_reentrant(x):
+    import dataiter as di
+    di.ListOfDicts([{"a": 2}, {"a": 1}]).sort(a=1).filter_out(a=2).rename(z="a")
+    return len(x)
+
+
 def _a_inc(x):
     v = x.get("a")
     return v + 1 if isinstance(v, int) and not isinstance(v, bool) else 1
@@ -69,6 +86,7 @@ IMPL_FUNCS = {
     "a_inc": _a_inc,
     "attr_a": lambda x: x.a if "a" in x else 0,
     "nkeys": lambda x: len(x),
+    "nkeys_reentrant": _nkeys_reentrant,
 }
 # what the model evaluates on its plain dicts
 REF_FUNCS = dict(IMPL_FUNCS)
